@@ -527,7 +527,23 @@ class UCSolutionEnumerator():
         crossing = self._partitions.get_crossed_noncomplex_factors()
         level_lists = [list(f.levels) for f in crossing]
         crossings = [{crossing[i]: level for i, level in enumerate(levels)} for levels in product(*level_lists)]
-        return list(filter(lambda c: not self._block.is_excluded_or_inconsistent_combination(c), crossings))
+        instances = list(filter(lambda c: not self._block.is_excluded_or_inconsistent_combination(c), crossings))
+        if self._block.crossings != []:
+            # Also drop combinations that the block counted as impossible when it determined the crossing size
+            main = self._block.crossings[self._partitions.main_crossing]
+            excluded = self._block.excluded_combinations(main)
+            if excluded:
+                complex_level_lists = [list(f.levels) for f in main if f not in crossing]
+                complex_factors = [f for f in main if f not in crossing]
+                def possible(c: dict) -> bool:
+                    for levels in product(*complex_level_lists):
+                        full = dict(c)
+                        full.update({f: l for f, l in zip(complex_factors, levels)})
+                        if tuple(full[f] for f in main) not in excluded:
+                            return True
+                    return False
+                instances = list(filter(possible, instances))
+        return instances
 
     def __count_complex_crossing_instances(self) -> int:
         crossing = self._partitions.get_crossed_complex_factors()
